@@ -6,6 +6,19 @@ import scipy.sparse as spsparse
 from formulaic.utils.stateful_transforms import stateful_transform
 
 
+def _as_flag(value: Any) -> Any:
+    """
+    Normalise boolean scalars that are not Python booleans (`numpy.bool_`, 0-d
+    boolean arrays; e.g. the result of `numpy.any(...)`) to `bool`, so that they
+    act as flags rather than as the numbers 0/1. Other values are passed through.
+    """
+    if isinstance(value, numpy.bool_) or (
+        isinstance(value, numpy.ndarray) and value.ndim == 0 and value.dtype.kind == "b"
+    ):
+        return bool(value)
+    return value
+
+
 @stateful_transform
 def scale(  # pylint: disable=dangerous-default-value  # always replaced by stateful-transform
     data: Any,
@@ -24,6 +37,8 @@ def scale(  # pylint: disable=dangerous-default-value  # always replaced by stat
         ddof: The delta degrees of freedom (default=1, which is equivalent to
             the Bessel correction).
     """
+
+    center, scale = _as_flag(center), _as_flag(scale)
 
     data = numpy.array(data)
     if data.dtype.kind in "biu":
